@@ -15,6 +15,10 @@ func init() {
 		register(&Prop{ID: id,
 			Run: func(c *Ctx) {
 				runPoolWorlds(c, id, nil)
+				if id == "C07" {
+					// below the pool: the real factory over the real OpenAPI wrappers and metadata client (c07factory.go)
+					faRun(c, c.Scale(40, 400))
+				}
 				if id == "C06" {
 					// the per-interface limit the pool is started with: limits -> checkInstance / getPoolConfig (c19.go)
 					c06ConfigRun(c, c.Scale(400, 8000))
@@ -34,6 +38,9 @@ func init() {
 				}
 			},
 			Exec2: func(c *Ctx, ops []string) ([]string, []string) {
+				if len(ops) > 0 && strings.HasPrefix(ops[0], "fa.") {
+					return ops, faExec(c, ops)
+				}
 				if len(ops) > 0 && strings.HasPrefix(ops[0], "cap.") {
 					return ops, pureExec(c19Exec)(c, ops)
 				}
